@@ -400,7 +400,7 @@ func (c *checker) rootInfo(root *Op) *rootInfo {
 // therefore not a member of the class and is not judged for clause 4.
 func sharedLiteral(root *Op, decs []Dec) bool {
 	for _, d := range decs {
-		if d.canon() != "form" {
+		if d.canon() != "form" || (d.Kind != "arg" && d.Kind != "mix") {
 			continue
 		}
 		n, set, _ := root.find(d.ID)
@@ -561,6 +561,32 @@ func simpler(d Dec, op *Op) []Dec {
 			c.Form = f
 			out = append(out, c)
 		}
+	case "twin":
+		for v := 0; v <= d.Val; v++ {
+			for _, f := range []string{"fwd", "rev"} {
+				if v == d.Val && f == d.Form {
+					break
+				}
+				out = append(out, Dec{Kind: "twin", Val: v, Form: f})
+			}
+		}
+	case "tag":
+		for _, where := range []string{"", "op"} {
+			if where == d.Arg {
+				break
+			}
+			c := d
+			c.Arg = where
+			if where == "op" && !strings.HasPrefix(d.Form, "shared") {
+				c.ID = 0
+			}
+			out = append(out, c)
+		}
+		if strings.HasSuffix(d.Form, "Z") {
+			c := d
+			c.Form = strings.TrimSuffix(d.Form, "Z") + "A"
+			out = append(out, c)
+		}
 	case "absfrag":
 		for _, f := range absFragForms {
 			if f == d.Form {
@@ -693,6 +719,36 @@ func describe(op *Op, d Dec) (desc, feature string) {
 		return fmt.Sprintf("duplicate (%s) of %s in %s scope", d.Form, nodeShape(n), scope), "field_deduplication / selection merging"
 	case "wrap":
 		return fmt.Sprintf("run wrapped as %s in %s scope", d.Form, scope), "fragment inlining"
+	case "twin":
+		cl := "?"
+		if d.Val < len(twinMenu) {
+			cl = twinMenu[d.Val].Class
+		}
+		return cl, "variables_extraction (re-use of an extracted variable for an equal literal)"
+	case "tag":
+		where := "the operation"
+		switch d.Arg {
+		case "":
+			where = "field"
+			if n != nil && n.K != 'f' {
+				where = nodeShape(n)
+			}
+		case "spread":
+			where = "fragment spread"
+		case "inl":
+			where = "inline fragment"
+		}
+		what := "a literal"
+		switch {
+		case strings.HasPrefix(d.Form, "shared"):
+			what = "a variable that is also a field argument"
+		case strings.HasPrefix(d.Form, "var"):
+			what = "a variable used only there"
+		}
+		if strings.HasSuffix(d.Form, "A") {
+			what += ", named like a canonical name"
+		}
+		return fmt.Sprintf("custom directive on %s with %s", where, what), "variables_mapper / directive arguments"
 	case "absfrag":
 		on := "interface"
 		if strings.Contains(d.Form, "U") {
